@@ -239,7 +239,7 @@ def run_cbmc_once(o, info, backend, witness, timeout, outdir, cancel=None):
     outfile = os.path.join(outdir, tag + '.out')
     cmd = ['/usr/bin/time', '-f', 'VF_RSS_KB=%M', 'cbmc', info['c'], os.path.join(VF, 'rt_cbmc.c'), '--function', o.fn,
            '--drop-unused-functions', '--no-malloc-may-fail', '--object-bits', str(o.object_bits), '--max-field-sensitivity-array-size', '256',
-           '--unwind', str(o.unwind)]
+           '--unwind', str(o.unwind), '--verbosity', '8']
     for us in o.unwindset:
         cmd += ['--unwindset', us]
     if o.depth: cmd += ['--depth', str(o.depth)]
@@ -292,6 +292,8 @@ def run_cbmc_once(o, info, backend, witness, timeout, outdir, cancel=None):
         res['verdict'] = 'ERROR'
     mm = re.search(r'size of program expression: (\d+) steps', text)
     res['symex_steps'] = int(mm.group(1)) if mm else None
+    mm = re.search(r'Generated (\d+) VCC\(s\), (\d+) remaining', text)
+    res['vccs'] = int(mm.group(1)) if mm else None; res['vccs_remaining'] = int(mm.group(2)) if mm else None
     mm = re.search(r'(\d+) variables, (\d+) clauses', text)
     if mm: res['sat_vars'] = int(mm.group(1)); res['sat_clauses'] = int(mm.group(2))
     mm = re.search(r'Runtime Solver: ([0-9.e+-]+)s', text) or re.search(r'Runtime decision procedure: ([0-9.e+-]+)s', text)
@@ -363,7 +365,7 @@ def run_obligation(o, tier, outdir):
     best = None
     for b in o.backend:
         res, text = results[('p', b)]
-        rec['runs'].append({k: res[k] for k in ('backend', 'seconds', 'verdict', 'rss_mb', 'symex_steps', 'solver_s', 'timed_out')})
+        rec['runs'].append({k: res.get(k) for k in ('backend', 'seconds', 'verdict', 'rss_mb', 'symex_steps', 'vccs', 'vccs_remaining', 'sat_vars', 'sat_clauses', 'solver_s', 'timed_out')})
         if res['verdict'] in ('SUCCESS', 'FAILURE') and best is None:
             best = (res, text)
     verdicts = set(r['verdict'] for r in rec['runs'] if r['verdict'] in ('SUCCESS', 'FAILURE'))
@@ -376,6 +378,7 @@ def run_obligation(o, tier, outdir):
         rec['verdict'] = best[0]['verdict']
         rec['nprops'] = len(best[0]['props'])
         rec['solver_s'] = best[0]['solver_s']; rec['seconds'] = best[0]['seconds']; rec['backend'] = best[0]['backend']
+        rec['symex_steps'] = best[0].get('symex_steps'); rec['vccs'] = best[0].get('vccs')
         rec['failed'] = [(pid, d) for pid, (d, s) in best[0]['props'].items() if s == 'FAILURE']
         rec['_text'] = best[1] if best[0]['verdict'] == 'FAILURE' else None
     rec['_info'] = info
@@ -663,6 +666,9 @@ def write_evidence(pid, tier, seed, mod, recs, violations, knowns, ub_notes, err
                        'checked by CBMC for all inputs within the stated bound); counted non-trivial only if the verdict is conclusive and its vacuity witness '
                        '(assert(false) at the harness end) is reachable',
                   samples=samples, exhaustive=False,
+                  states=max(1, sum((r.get('symex_steps') or 0) for r in recs)), transitions=max(1, sum((r.get('vccs') or 0) for r in recs)),
+                  traces_validated_against_impl=sum(1 for r in recs if r.get('witness_replay') and all(rc == 0 for rc, _ in r['witness_replay'])) + len(violations) + len(knowns),
+                  states_transitions_meaning='states = SSA steps of the symbolic execution (CBMC "size of program expression"), summed over obligations; transitions = verification conditions generated; traces_validated = CBMC witness/counterexample traces replayed on the natively compiled real code',
                   obligations=len(recs), discharged=sum(1 for r in conclusive if r['verdict'] == 'SUCCESS'),
                   inconclusive=[r['name'] for r in recs if r['verdict'] == 'INCONCLUSIVE'],
                   functions_encoded=meta.get('functions', []),
